@@ -18,6 +18,7 @@ import (
 	"path/filepath"
 	"regexp"
 	"sort"
+	"strconv"
 	"strings"
 
 	btcecdsa "github.com/btcsuite/btcd/btcec/v2/ecdsa"
@@ -373,6 +374,9 @@ func (g *graph) typesJSON() *jn {
 
 var two = big.NewInt(2)
 
+// per-document bound on the estimated number of Keccak blocks (set in main per tier)
+var maxBlocks = 28
+
 func pow2(n int) *big.Int { return new(big.Int).Exp(two, big.NewInt(int64(n)), nil) }
 
 func randBig(r *cv.Rand, bits int) *big.Int {
@@ -554,6 +558,48 @@ func genStruct(r *cv.Rand, st *cv.Stats, g *graph, name string, budget int) *jn 
 	return o
 }
 
+// ---- cost estimate: Keccak blocks (136 bytes) the model will hash for a value; used to keep the quick
+// tier's vm_compute time bounded (each block costs ~25 ms in the evaluator, model and spec each) ----
+func blocks(n int) int { return n/136 + 1 }
+
+func (g *graph) typeStringLen(root string) int {
+	n := 0
+	for nm := range g.reach(root) {
+		s := g.find(nm)
+		n += len(nm) + 2
+		for _, m := range s.members {
+			n += len(m.t.name()) + len(m.name) + 2
+		}
+	}
+	return n
+}
+
+func (g *graph) cost(t *mty, v *jn, tl map[string]int) int {
+	switch {
+	case v == nil || v.kind == 'n':
+		return 0
+	case t.kind == "arr" && v.kind == 'a':
+		c := blocks(32 * len(v.arr))
+		for _, e := range v.arr {
+			c += g.cost(t.elem, e, tl)
+		}
+		return c
+	case t.kind == "ref" && v.kind == 'o':
+		s := g.find(t.ref)
+		if _, ok := tl[t.ref]; !ok {
+			tl[t.ref] = g.typeStringLen(t.ref)
+		}
+		c := blocks(tl[t.ref]) + blocks(32*(len(s.members)+1))
+		for _, m := range s.members {
+			c += g.cost(m.t, v.get(m.name), tl)
+		}
+		return c
+	case (t.kind == "bytes" || t.kind == "string") && v.kind == 's':
+		return blocks(len(v.s) / 2)
+	}
+	return 0
+}
+
 // the five standard domain fields
 var domainFields = []member{
 	{"name", &mty{kind: "string"}},
@@ -589,6 +635,10 @@ func coqVal(r *cv.Rand, v interface{}) string {
 		return "(DBool false)"
 	case json.Number:
 		return "(DNumber " + coqStr(string(vt)) + ")"
+	case float64:
+		// not produced by the pinned decoder (UseNumber); kept so that a decoder change shows up as a
+		// digest difference, not as a harness crash
+		return "(DNumber " + coqStr(strconv.FormatFloat(vt, 'f', -1, 64)) + ")"
 	case string:
 		return "(DString " + coqStr(vt) + ")"
 	case []interface{}:
@@ -714,6 +764,10 @@ func (c *ctxT) fail(what string, extra map[string]interface{}) {
 
 // addDoc decodes the JSON text, writes the case, returns the outcome
 func (c *ctxT) addDoc(kind string, text []byte, published string, note string) (outcome, bool) {
+	return c.addDocSpec(kind, text, published, note, true)
+}
+
+func (c *ctxT) addDocSpec(kind string, text []byte, published string, note string, withSpec bool) (outcome, bool) {
 	p, err := decode(text)
 	if err != nil {
 		c.st.Hit("skipped:json-decode-error")
@@ -728,7 +782,7 @@ func (c *ctxT) addDoc(kind string, text []byte, published string, note string) (
 		b, _ := hex.DecodeString(strings.TrimPrefix(published, "0x"))
 		pub = "(Some " + cv.CoqBytes(b) + ")"
 	}
-	c.w.Add(fmt.Sprintf("CDoc %s [] %d %s %s", term, o.cls, cv.CoqBytes(o.digest), pub),
+	c.w.Add(fmt.Sprintf("CDoc %s [] %d %s %s %v", term, o.cls, cv.CoqBytes(o.digest), pub, withSpec),
 		desc{Kind: kind, Doc: string(text), Impl: implDesc(o), Published: published, Note: note})
 	if !c.seen[string(text)] {
 		c.seen[string(text)] = true
@@ -770,22 +824,29 @@ type genDoc struct {
 	doc     *jn
 }
 
-func buildDoc(r *cv.Rand, st *cv.Stats, nStructs int) *genDoc {
+// domainMode: 0..31 = that subset of the five standard fields; 32 = no domain type; 33 = domain-only
+// document (random subset); < 0 = random
+func buildDoc(r *cv.Rand, st *cv.Stats, nStructs int, domainMode int) *genDoc {
 	g := genGraph(r, st, nStructs)
 	primary := g.structs[0].name
 	doc := jobj()
 	types := g.typesJSON()
 	// domain: every subset of the five standard fields, or no domain type at all
-	mode := r.Intn(8)
+	if domainMode < 0 {
+		domainMode = r.Intn(36)
+	}
 	var domain *jn
 	switch {
-	case mode == 0:
+	case domainMode == 32:
 		st.Hit("domain:no-type")
 		if r.Bool() {
 			domain = jobj()
 		}
 	default:
-		mask := r.Intn(32)
+		mask := domainMode
+		if mask > 32 {
+			mask = r.Intn(32)
+		}
 		st.Hit(fmt.Sprintf("domain:mask=%02d", mask))
 		l := jarr()
 		domain = jobj()
@@ -800,7 +861,7 @@ func buildDoc(r *cv.Rand, st *cv.Stats, nStructs int) *genDoc {
 		types.set("EIP712Domain", l)
 	}
 	doc.set("types", types)
-	if r.Intn(12) == 0 && types.get("EIP712Domain") != nil {
+	if (domainMode == 33 || r.Intn(20) == 0) && types.get("EIP712Domain") != nil {
 		st.Hit("primary:domain-only")
 		primary = "EIP712Domain"
 	}
@@ -809,7 +870,20 @@ func buildDoc(r *cv.Rand, st *cv.Stats, nStructs int) *genDoc {
 		doc.set("domain", domain)
 	}
 	if primary != "EIP712Domain" {
-		doc.set("message", genStruct(r, st, g, primary, 1+r.Intn(3)))
+		// keep the hashing work of one document bounded
+		var msg *jn
+		for try, budget := 0, 1+r.Intn(3); ; try++ {
+			msg = genStruct(r, st, g, primary, budget)
+			c := g.cost(&mty{kind: "ref", ref: primary}, msg, map[string]int{})
+			if c <= maxBlocks || try >= 6 {
+				st.Hit(fmt.Sprintf("cost:blocks<=%d", (c/10+1)*10))
+				break
+			}
+			if budget > 0 {
+				budget--
+			}
+		}
+		doc.set("message", msg)
 		if g.cyclic(primary) {
 			st.Hit("graph:cyclic-from-primary")
 		} else {
@@ -927,8 +1001,8 @@ func withExtraFields(r *cv.Rand, gd *genDoc) *jn {
 	return d
 }
 
-func (c *ctxT) generated(nStructs int) {
-	gd := buildDoc(c.r, c.st, nStructs)
+func (c *ctxT) generated(nStructs int, domainMode int) {
+	gd := buildDoc(c.r, c.st, nStructs, domainMode)
 	base := gd.doc.text(nil)
 	o, ok := c.addDoc("generated", base, "", "")
 	if !ok {
@@ -951,16 +1025,48 @@ func (c *ctxT) generated(nStructs int) {
 		c.st.Hit("variant:key-order")
 		same("a different JSON key order", t, runEncode(p))
 	}
+	// every JSON number re-spelled as a decimal string: same integer, same digest
+	{
+		d := gd.doc.clone()
+		var walk func(v *jn)
+		n := 0
+		walk = func(v *jn) {
+			if v.kind == '#' {
+				v.kind = 's'
+				n++
+			}
+			for _, a := range v.arr {
+				walk(a)
+			}
+			for _, a := range v.vals {
+				walk(a)
+			}
+		}
+		if m := d.get("message"); m != nil {
+			walk(m)
+		}
+		if m := d.get("domain"); m != nil {
+			walk(m)
+		}
+		if n > 0 {
+			t := d.text(c.r)
+			if p, err := decode(t); err == nil {
+				c.st.Evaluations++
+				c.st.Hit("variant:numbers-as-strings")
+				same("JSON numbers re-spelled as decimal strings", t, runEncode(p))
+			}
+		}
+	}
 	if o.cls != 0 {
 		return
 	}
 	// unreferenced extra types, extra message fields: also evaluated by the model and the spec
 	t1 := withExtraTypes(c.r, gd).text(c.r)
-	if o1, ok := c.addDoc("variant:extra-types", t1, "", ""); ok {
+	if o1, ok := c.addDocSpec("variant:extra-types", t1, "", "", c.r.Intn(4) == 0); ok {
 		same("unreferenced extra type definitions", t1, o1)
 	}
 	t2 := withExtraFields(c.r, gd).text(c.r)
-	if o2, ok := c.addDoc("variant:extra-fields", t2, "", ""); ok {
+	if o2, ok := c.addDocSpec("variant:extra-fields", t2, "", "", c.r.Intn(4) == 0); ok {
 		same("extra message/domain fields", t2, o2)
 	}
 }
@@ -1044,6 +1150,8 @@ func fixedDocs() []string {
 		one("uint8[]", "null"), one("uint8[]", "{}"), one("uint8[]", `"x"`), one("uint8[]", "[256]"), one("[]", "[]"), one("[2]", "[1,2]"), one("]", "[]"),
 		one("uint8[9223372036854775807]", "[]"), one("uint8[9223372036854775808]", "[]"), one("uint8[1]]", "[1]"), one("uint8[[1]", "[1]"),
 		one("T[]", "[]"), one("T[]", `[{"x":[]}]`), one("T[1]", "[null]"),
+		// a dimension that needs more than 8 bits, met exactly and missed by one
+		one("bool[256]", "["+strings.Repeat("true,", 255)+"false]"), one("bool[257]", "["+strings.Repeat("true,", 255)+"false]"),
 		// missing atomic member / wrong kinds for a struct value
 		`{"types":{"T":[{"name":"x","type":"uint8"}]},"primaryType":"T","message":{}}`,
 		`{"types":{"T":[{"name":"x","type":"uint8"}]},"primaryType":"T"}`,
@@ -1399,13 +1507,14 @@ func main() {
 		c.addDoc("fixed", []byte(d), "", "")
 	}
 	// generated
-	nDocs := 90
+	nDocs := 40
 	if thorough {
-		nDocs = 1500
+		nDocs = 700
+		maxBlocks = 60
 	}
 	for i := 0; i < nDocs; i++ {
 		n := 1 + i%8
-		c.generated(n)
+		c.generated(n, (i*7)%36) // 7 is coprime to 36: every domain mode within 36 documents
 	}
 	// signing
 	kp, _ := secp256k1.NewSecp256k1KeyPair(keccak([]byte(fmt.Sprintf("verif-c04-key-%d", cv.Seed()))))
@@ -1417,7 +1526,7 @@ func main() {
 	c.signCase([]byte(`{"types":{"T":[{"name":"x","type":"uint8"}]},"primaryType":"T","message":{"x":256}}`), kp)
 	for i := 0; i < nSign; i++ {
 		k2, _ := secp256k1.NewSecp256k1KeyPair(keccak(c.r.Bytes(32)))
-		c.signCase(buildDoc(c.r, st, 1+c.r.Intn(4)).doc.text(c.r), k2)
+		c.signCase(buildDoc(c.r, st, 1+c.r.Intn(4), -1).doc.text(c.r), k2)
 	}
 	// ABI
 	nAbi := 40
